@@ -51,6 +51,21 @@ def _own_walk(root):
         stack.extend(ast.iter_child_nodes(n))
 
 
+def _nested_defs(fn: ast.FunctionDef) -> list[ast.FunctionDef]:
+    """closures defined at the function's own level (not inside other closures)"""
+    out = []
+    stack = list(ast.iter_child_nodes(fn))
+    while stack:
+        n = stack.pop()
+        if isinstance(n, ast.FunctionDef):
+            out.append(n)
+            continue
+        if isinstance(n, (ast.AsyncFunctionDef, ast.ClassDef, ast.Lambda)):
+            continue
+        stack.extend(ast.iter_child_nodes(n))
+    return out
+
+
 def _stored_names(fn: ast.FunctionDef) -> set[str]:
     out = set()
     for n in _own_walk(fn):
@@ -58,6 +73,8 @@ def _stored_names(fn: ast.FunctionDef) -> set[str]:
             out.add(n.id)
         elif isinstance(n, ast.ExceptHandler) and n.name:
             out.add(n.name)
+    for d in _nested_defs(fn):
+        out.add(d.name)
     return out
 
 
@@ -69,6 +86,8 @@ def _body(fn: ast.FunctionDef) -> list[ast.stmt]:
 
 
 def _contains_return(s: ast.AST) -> bool:
+    if isinstance(s, (ast.FunctionDef, ast.AsyncFunctionDef, ast.ClassDef, ast.Lambda)):
+        return False    # the returns of a closure are its own
     return any(isinstance(n, ast.Return) for n in _own_walk(s)) if not isinstance(s, ast.Return) else True
 
 
@@ -82,7 +101,16 @@ def eligible(fn: ast.FunctionDef) -> bool:
     for n in ast.walk(fn):
         if isinstance(n, (ast.Yield, ast.YieldFrom, ast.Global, ast.Nonlocal, ast.Await)):
             return False
-        if n is not fn and isinstance(n, (ast.FunctionDef, ast.AsyncFunctionDef, ast.ClassDef)):
+        if n is not fn and isinstance(n, (ast.AsyncFunctionDef, ast.ClassDef)):
+            return False
+    # closures are carried along when their own names cannot be confused with the helper's
+    outer = {p.arg for p in a.posonlyargs + a.args + a.kwonlyargs} | _stored_names(fn)
+    for d in _nested_defs(fn):
+        da = d.args
+        if da.vararg or da.kwarg or d.decorator_list or _nested_defs(d):
+            return False
+        inner = {p.arg for p in da.posonlyargs + da.args + da.kwonlyargs} | (_stored_names(d) - {x.name for x in _nested_defs(d)})
+        if inner & outer:
             return False
     return True
 
@@ -120,6 +148,11 @@ class _Subst(ast.NodeTransformer):
 
     def visit_ExceptHandler(self, n: ast.ExceptHandler):
         if n.name and n.name in self.rename:
+            n.name = self.rename[n.name]
+        return self.generic_visit(n)
+
+    def visit_FunctionDef(self, n: ast.FunctionDef):
+        if n.name in self.rename:
             n.name = self.rename[n.name]
         return self.generic_visit(n)
 
@@ -608,6 +641,174 @@ def normalise_calls(repo) -> int:
     return n
 
 
+_NONNULL: set[str] = set()   # names of the function under work that only ever hold containers / numbers
+
+
+def _value_nonnull(v: ast.AST) -> bool:
+    if isinstance(v, ast.Constant):
+        return v.value is not None
+    if isinstance(v, (ast.List, ast.Dict, ast.Set, ast.Tuple, ast.ListComp, ast.SetComp, ast.DictComp, ast.JoinedStr)):
+        return True
+    if isinstance(v, ast.Call) and isinstance(v.func, ast.Name) and v.func.id in ("sorted", "list", "set", "dict", "tuple", "frozenset", "len", "str", "int"):
+        return True
+    if isinstance(v, ast.BinOp) and (_value_nonnull(v.left) or _value_nonnull(v.right)):
+        return True
+    if isinstance(v, ast.Name) and v.id in _NONNULL:
+        return True
+    return False
+
+
+def _collect_nonnull(fn: ast.FunctionDef) -> None:
+    """names all of whose bindings are containers / numbers (fixpoint over plain copies)"""
+    _NONNULL.clear()
+    binds: dict[str, list] = {}
+    params = {a.arg for a in fn.args.posonlyargs + fn.args.args + fn.args.kwonlyargs}
+    for n in _own_walk(fn):
+        if isinstance(n, ast.Assign) and len(n.targets) == 1 and isinstance(n.targets[0], ast.Name):
+            binds.setdefault(n.targets[0].id, []).append(n.value)
+        elif isinstance(n, ast.AugAssign) and isinstance(n.target, ast.Name):
+            binds.setdefault(n.target.id, []).append(ast.Name(n.target.id, ast.Load()))
+        elif isinstance(n, ast.Name) and isinstance(n.ctx, ast.Store):
+            binds.setdefault(n.id, [])
+    other = {n.id for n in _own_walk(fn) if isinstance(n, ast.Name) and isinstance(n.ctx, ast.Store)}
+    plain = {k for k in binds}
+    # names bound by for/with/unpacking are not tracked
+    tracked = {k for k, vs in binds.items() if vs and k not in params}
+    untracked_store = set()
+    for n in _own_walk(fn):
+        if isinstance(n, (ast.For, ast.comprehension)):
+            for t in ast.walk(n.target):
+                if isinstance(t, ast.Name):
+                    untracked_store.add(t.id)
+        if isinstance(n, ast.Assign) and not (len(n.targets) == 1 and isinstance(n.targets[0], ast.Name)):
+            for t in n.targets:
+                for x in ast.walk(t):
+                    if isinstance(x, ast.Name) and isinstance(x.ctx, ast.Store):
+                        untracked_store.add(x.id)
+        if isinstance(n, (ast.With,)):
+            for i in n.items:
+                if i.optional_vars is not None:
+                    for x in ast.walk(i.optional_vars):
+                        if isinstance(x, ast.Name):
+                            untracked_store.add(x.id)
+    tracked -= untracked_store
+    grew = True
+    while grew:
+        grew = False
+        for k in tracked - _NONNULL:
+            if all(_value_nonnull(v) or (isinstance(v, ast.Name) and v.id == k) for v in binds[k]) and \
+                    any(not (isinstance(v, ast.Name) and v.id == k) for v in binds[k]):
+                _NONNULL.add(k)
+                grew = True
+
+
+def _noneness_at_end(block: list[ast.stmt], x: str) -> bool | None:
+    """True: `x` is None when the block ends; False: certainly not None; None: unknown / the block does not end normally."""
+    if not block:
+        return None
+    last = block[-1]
+    if isinstance(last, ast.Assign) and len(last.targets) == 1 and isinstance(last.targets[0], ast.Name) and last.targets[0].id == x:
+        v = last.value
+        if isinstance(v, ast.Constant) and v.value is None:
+            return True
+        if _value_nonnull(v):
+            return False
+        return None
+    if isinstance(last, ast.If) and last.orelse:
+        a, b = _noneness_at_end(last.body, x), _noneness_at_end(last.orelse, x)
+        return a if a is not None and a == b else None
+    return None
+
+
+def _append_at_end(block: list[ast.stmt], x: str, when_none: list[ast.stmt], otherwise: list[ast.stmt]) -> None:
+    last = block[-1]
+    if isinstance(last, ast.If) and last.orelse and not (isinstance(last, ast.Assign)):
+        _append_at_end(last.body, x, when_none, otherwise)
+        _append_at_end(last.orelse, x, when_none, otherwise)
+        return
+    block.extend(copy.deepcopy(when_none if _noneness_at_end(block, x) else otherwise))
+
+
+def _break_sites(body: list[ast.stmt]) -> list[tuple[list, int]]:
+    """(block, index) of every `break` that leaves the loop whose body this is"""
+    out = []
+    for k, st in enumerate(body):
+        if isinstance(st, ast.Break):
+            out.append((body, k))
+        elif isinstance(st, (ast.For, ast.While, ast.FunctionDef, ast.ClassDef)):
+            continue
+        else:
+            for fld in ("body", "orelse", "finalbody"):
+                b = getattr(st, fld, None)
+                if isinstance(b, list) and b and isinstance(b[0], ast.stmt):
+                    out += _break_sites(b)
+            for h in getattr(st, "handlers", []) or []:
+                out += _break_sites(h.body)
+    return out
+
+
+def _thread_sentinels(body: list[ast.stmt]) -> bool:
+    """`if c: x = None  else: ...; x = <value>` followed by `if x is None: A [else: B]`  ->  A / B move to the ends of the
+    branches that decide the test (what remains after inlining a helper that returns None to signal failure)."""
+    changed = False
+    i = 0
+    while i + 1 < len(body):
+        s1, s2 = body[i], body[i + 1]
+        done = False
+        if isinstance(s1, ast.If) and s1.orelse and isinstance(s2, ast.If):
+            t, neg = s2.test, False
+            while isinstance(t, ast.UnaryOp) and isinstance(t.op, ast.Not):
+                t, neg = t.operand, not neg
+            if isinstance(t, ast.Compare) and len(t.ops) == 1 and isinstance(t.left, ast.Name) and isinstance(t.ops[0], (ast.Is, ast.IsNot)) \
+                    and isinstance(t.comparators[0], ast.Constant) and t.comparators[0].value is None:
+                x = t.left.id
+                if isinstance(t.ops[0], ast.IsNot):
+                    neg = not neg
+                a, b = _noneness_at_end(s1.body, x), _noneness_at_end(s1.orelse, x)
+                if a is not None and b is not None:
+                    when_none, otherwise = (s2.orelse, s2.body) if neg else (s2.body, s2.orelse)
+                    size = sum(1 for blk in (when_none, otherwise) for st in blk for _ in ast.walk(st))
+                    if size <= 400:
+                        _append_at_end(s1.body, x, when_none, otherwise)
+                        _append_at_end(s1.orelse, x, when_none, otherwise)
+                        del body[i + 1]
+                        changed = done = True
+        if not done and isinstance(s1, (ast.For, ast.While)) and s1.orelse and isinstance(s2, ast.If):
+            # the same for a search loop: `... x = None; break` inside, `else: x = <value>` when the loop runs out
+            t, neg = s2.test, False
+            while isinstance(t, ast.UnaryOp) and isinstance(t.op, ast.Not):
+                t, neg = t.operand, not neg
+            if isinstance(t, ast.Compare) and len(t.ops) == 1 and isinstance(t.left, ast.Name) and isinstance(t.ops[0], (ast.Is, ast.IsNot)) \
+                    and isinstance(t.comparators[0], ast.Constant) and t.comparators[0].value is None:
+                x = t.left.id
+                if isinstance(t.ops[0], ast.IsNot):
+                    neg = not neg
+                when_none, otherwise = (s2.orelse, s2.body) if neg else (s2.body, s2.orelse)
+                movable = not any(isinstance(z, (ast.Break, ast.Continue)) for blk in (when_none, otherwise) for z in _own_walk_stmts(blk)
+                                  if not isinstance(z, ast.Return))
+                sites = _break_sites(s1.body)
+                e_ = _noneness_at_end(s1.orelse, x)
+                if movable and sites and e_ is not None and all(_noneness_at_end(blk[:k], x) is not None for blk, k in sites):
+                    for blk, k in sorted(sites, key=lambda bk: -bk[1]):
+                        ins = copy.deepcopy(when_none if _noneness_at_end(blk[:k], x) else otherwise)
+                        blk[k:k] = ins
+                    s1.orelse.extend(copy.deepcopy(when_none if e_ else otherwise))
+                    del body[i + 1]
+                    changed = done = True
+        if not done:
+            i += 1
+    for st in body:
+        if isinstance(st, (ast.FunctionDef, ast.ClassDef)):
+            continue
+        for fld in ("body", "orelse", "finalbody"):
+            b = getattr(st, fld, None)
+            if isinstance(b, list) and b and isinstance(b[0], ast.stmt):
+                changed |= _thread_sentinels(b)
+        for h in getattr(st, "handlers", []) or []:
+            changed |= _thread_sentinels(h.body)
+    return changed
+
+
 def apply(repo) -> dict:
     """Mutates the module trees of `repo`; returns a report {inlined: [...], opaque: [...], removed: [...]}."""
     known = known_functions()
@@ -622,7 +823,9 @@ def apply(repo) -> dict:
         recursive = {k for k in new if k in _reach(cg, k)}
         cand = {k: f for k, f in new.items() if k not in recursive and (eligible(f.node) or eligible_generator(f.node))}
         # innermost first: helpers that call no other candidate
-        leaves = {k: f for k, f in cand.items() if not (cg.get(k, set()) & set(cand))} or cand
+        # (a helper's own closures travel with it; they do not make it a non-leaf)
+        leaves = {k: f for k, f in cand.items()
+                  if not {c for c in (cg.get(k, set()) & set(cand)) if not c.startswith(k + ".")}} or cand
         changed = False
         for f in list(repo.functions.values()):
             changed |= _inline_in(repo, f, leaves, report)
@@ -630,6 +833,10 @@ def apply(repo) -> dict:
             break
         repo.reindex()
     normalise_calls(repo)
+    for f in list(repo.functions.values()):
+        _collect_nonnull(f.node)
+        if _thread_sentinels(f.node.body):
+            ast.fix_missing_locations(f.node)
     # remove new functions without remaining references
     new = {k: f for k, f in repo.functions.items() if k not in known}
     if new:
